@@ -2,7 +2,7 @@
 table of try_to_lean_string, into_repr idioms, bool/char constants, error mapping."""
 import re
 from facts import callee_name, strip_refs
-from guards import describe, eval_int, guards_at
+from guards import describe, eval_int, guards_at, cmp_facts
 
 INT_RANGE = {
     "u8": (0, 2**8 - 1), "u16": (0, 2**16 - 1), "u32": (0, 2**32 - 1), "u64": (0, 2**64 - 1), "u128": (0, 2**128 - 1),
@@ -353,20 +353,12 @@ def _unrolled_writer(ctx, rule, key, b, ty):
     okc = all(c in bits and bits[c] >= own for c in casts) and (bool(casts) or ty in bits)  # an unsigned type already as wide as the work type needs no cast
     ctx.ob(rule, key, "lossless-cast", okc, how="`self as %s` (>= %d bits)" % (sorted(set(casts)), own), detail="integer is cast to %s before formatting (narrower than %d bits loses digits)" % (sorted(set(casts)), own))
     # loop thresholds: the 4-digit loop runs while n >= 10^4, the 2-digit step on n >= 100, last split n < 10
-    consts = set()
-    for bb in range(b.n):
-        t = b.term(bb)
-        if t["k"] == "switch":
-            e = b.origin_operand(t["discr"])
-            if e[0] == "bin" and e[1] in ("Ge", "Gt", "Lt", "Le"):
-                cb = eval_int(strip_refs(e[3]))
-                ca = eval_int(strip_refs(e[2]))
-                consts.add((e[1], cb if cb is not None else ca, cb is not None))
-    need = [("Ge", 100, True), ("Lt", 10, True)]
-    if own >= 16:
-        need.append(("Ge", 10000, True))
-    miss = [n for n in need if n not in consts]
-    ctx.ob(rule, key, "thresholds", not miss, how="guards n >= 10^4 / n >= 100 / n < 10 present", detail="unrolled writer lacks guard(s) %s; has %s" % (miss, sorted(c for c in consts if c[1] in (9, 10, 99, 100, 9999, 10000, 10001))))
+    # as intervals: some edge establishes n >= 10^4, one n >= 100, one splits at 10
+    los = {lo for _, lo, hi, _, _ in cmp_facts(b) if lo is not None and hi is None}
+    his = {hi for _, lo, hi, _, _ in cmp_facts(b) if hi is not None and lo is None}
+    need = [100, 10] + ([10000] if own >= 16 else [])
+    miss = [k for k in need if k not in los and (k - 1) not in his]
+    ctx.ob(rule, key, "thresholds", not miss, how="guards n >= 10^4 / n >= 100 / n >= 10 present (as intervals)", detail="unrolled writer lacks the split(s) at %s; lower bounds seen %s" % (miss, sorted(x for x in los if x < 100000)))
     # divisors
     divs = set()
     for blk in b.blocks:
